@@ -31,6 +31,13 @@ K_PATTERN_CHOICE = dict(name="c01_keys_pattern_choice__get_function_by_pattern",
 K_CODEC = dict(name="c12_codec__replicate_opp", function="ReplicateOpp::{to_u8,from}", label="C12.op-codec", complete=True,
                bound="none: all 256 bytes", src="src/lib/bo.rs (ReplicateOpp)", timeout=600)
 
+PARSER_FNS = ["parse_auth_command", "parse_remove_command", "parse_replicate_increment_command", "parse_increment_command", "parse_set_safe_command",
+              "parse_set_command", "parse_get_safe_command", "parse_get_command", "parse_unwatch_command", "parse_set_secoundary_command", "parse_set_primary_command",
+              "parse_replicate_join_command", "parse_replicate_leave_command", "parse_leave_command", "parse_join_command", "parse_election_command",
+              "parse_resolve_command", "parse_debug_command", "parse_arbiter_command", "parse_set_permissions_command", "parse_ack_command", "parse_rp_command",
+              "parse_replicate_command", "parse_replicate_remove_command", "parse_replicate_since_command", "parse_list_commands_command", "parse_watch_command",
+              "parse_keys_command", "parse_use_command", "parse_create_db_command", "parse_create_user_command"]
+
 SECURITY_FNS = ["has_permission", "apply_if_auth", "apply_to_database_name_if_has_permission", "apply_if_safe_access",
                 "apply_to_database_name", "apply_to_database", "Client::is_admin_auth", "Client::selected_db_name", "Client::selected_db_user_name"]
 
@@ -121,10 +128,15 @@ PROPS = {
         assumptions=["Change::new stamps the resolving change with the wall clock (any u64)"],
     ),
     "C10": dict(
-        units=["store", "consensus", "security", "ids", "oplog"],
-        reachable={"store": STORE_FNS, "security": SECURITY_FNS, "oplog": ["read_operations_since_from_file", "Oplog::last_op_time", "Oplog::write_op_log", "ReplicateOpp::to_u8", "From<u8>@ReplicateOpp::from", "OpLogRecord::new"], "ids": ["generate_key_id", "create_temp_db", "Databases::add_database", "Databases::next_db_id"], "consensus": ["Database::try_resolve_conflict_response", "apply_change_to_db_try_fix_conflicts",
+        units=["store", "consensus", "security", "ids", "oplog", "pending", "parser"],
+        reachable={"store": STORE_FNS, "security": SECURITY_FNS, "pending": ["ReplicationMessage::new", "ReplicationMessage::ack", "ReplicationMessage::replicated", "ReplicationMessage::is_full_acknowledged",
+                   "ReplicationMessage::count_replication", "ReplicationMessage::count_acknowledged", "ReplicationMessage::get_copy", "Databases::register_pending_opp",
+                   "Databases::acknowledge_pending_opp", "Databases::get_pending_opp_copy"],
+                   "parser": PARSER_FNS, "oplog": ["read_operations_since_from_file", "Oplog::last_op_time", "Oplog::write_op_log", "ReplicateOpp::to_u8", "From<u8>@ReplicateOpp::from", "OpLogRecord::new"], "ids": ["generate_key_id", "create_temp_db", "Databases::add_database", "Databases::next_db_id"], "consensus": ["Database::try_resolve_conflict_response", "apply_change_to_db_try_fix_conflicts",
                    "set_key_value", "Database::resolve_conflit", "Database::has_arbiter_connected", "Change::new"]},
-        undecided=["transport loops, dispatcher unwraps, lock poisoning propagation"],
+        undecided=["transport loops, dispatcher unwraps (e.g. try_send(..).unwrap() in the rp arm), lock poisoning propagation",
+                   "Request::parse's table lookup (lazy_static HashMap of fn pointers) and the two snapshot parsers (iterator pipelines) are not verified",
+                   "panics inside log:: arguments (R1 deletes log statements)"],
         assumptions=[],
     ),
 }
